@@ -64,23 +64,24 @@ type logset struct {
 	textCalls int64
 }
 
-func newLogset(sc SeqCase) *logset {
+func newLogset(post, body HarOpt, headersOnly, decode bool) *logset {
 	ls := &logset{har: har.NewLogger(), mw: &countWriter{}, text: martianlog.NewLogger()}
-	ls.har.SetOption(sc.Post.Option(true), sc.Body.Option(false))
+	ls.har.SetOption(post.Option(true), body.Option(false))
 	ls.marbl = marbl.NewModifier(ls.mw)
-	ls.text.SetHeadersOnly(sc.HeadersOnly)
-	ls.text.SetDecode(sc.Decode)
+	ls.text.SetHeadersOnly(headersOnly)
+	ls.text.SetDecode(decode)
 	ls.text.SetLogFunc(func(string) { atomic.AddInt64(&ls.textCalls, 1) })
 	return ls
 }
 
-func (ls *logset) names(sc SeqCase) []string {
-	switch sc.Logger {
+// loggerNames lists the loggers a case passes, in order.
+func loggerNames(logger string, order []int) []string {
+	switch logger {
 	case "har", "marbl", "text":
-		return []string{sc.Logger}
+		return []string{logger}
 	case "stack":
 		var out []string
-		for _, i := range sc.Order {
+		for _, i := range order {
 			out = append(out, []string{"har", "marbl", "text"}[i])
 		}
 		return out
@@ -98,29 +99,30 @@ func (ls *logset) count(name string) int64 {
 	return atomic.LoadInt64(&ls.textCalls)
 }
 
-func (ls *logset) apply(name string, t *twin) error {
-	var mod interface {
-		ModifyRequest(*http.Request) error
-		ModifyResponse(*http.Response) error
-	}
+type modifier interface {
+	ModifyRequest(*http.Request) error
+	ModifyResponse(*http.Response) error
+}
+
+func (ls *logset) mod(name string) modifier {
 	switch name {
 	case "har":
-		mod = ls.har
+		return ls.har
 	case "marbl":
-		mod = ls.marbl
-	default:
-		mod = ls.text
+		return ls.marbl
 	}
+	return ls.text
+}
+
+// applyReq: the request phase of the exchange a response belongs to.
+func (ls *logset) applyReq(name string, t *twin) error { return ls.mod(name).ModifyRequest(t.req) }
+
+// applyMsg: the message under test.
+func (ls *logset) applyMsg(name string, t *twin) error {
 	if t.res == nil {
-		return mod.ModifyRequest(t.req)
+		return ls.mod(name).ModifyRequest(t.req)
 	}
-	if name == "har" {
-		// the answered request is logged first so that the response has an entry to attach to
-		if err := mod.ModifyRequest(t.req); err != nil {
-			return err
-		}
-	}
-	return mod.ModifyResponse(t.res)
+	return ls.mod(name).ModifyResponse(t.res)
 }
 
 type seqMsg struct {
@@ -165,7 +167,8 @@ func seqRound(sc SeqCase) (v kit.Verdict) {
 		}
 		ms[i] = s
 	}
-	ls := newLogset(sc)
+	ls := newLogset(sc.Post, sc.Body, sc.HeadersOnly, sc.Decode)
+	names := loggerNames(sc.Logger, sc.Order)
 
 	logOne := func(i int) {
 		s := ms[i]
@@ -181,9 +184,14 @@ func seqRound(sc SeqCase) (v kit.Verdict) {
 				s.v = append(s.v, sv...)
 				return
 			}
-			for _, name := range ls.names(sc) {
+			if s.sub.res != nil {
+				for _, name := range names {
+					ls.applyReq(name, s.sub)
+				}
+			}
+			for _, name := range names {
 				before := ls.count(name)
-				if err := ls.apply(name, s.sub); err != nil {
+				if err := ls.applyMsg(name, s.sub); err != nil {
 					kit.Note("sequence", "a logger returned an error on some generated message (the forwarded bytes are still compared)")
 				}
 				// (the marbl stream writes its frames on its own goroutine: it is
